@@ -10,8 +10,8 @@ from warnings import warn
 
 import numpy as np
 import pandas as pd
-from MDAnalysis.lib.pkdtree import PeriodicKDTree
 from pymatgen.core import Structure
+from scipy.spatial import cKDTree
 
 from .caching import weak_lru_cache
 from .metrics import TrajectoryMetrics
@@ -511,15 +511,15 @@ def _calculate_atom_states(
     """
     lattice = trajectory.get_lattice()
 
-    cutoff = max(list(site_radius.values()))
-
     traj_frac_coords = trajectory.positions.reshape(-1, 3)
     traj_cart_coords = lattice.get_cartesian_coords(traj_frac_coords)
 
-    periodic_tree: PeriodicKDTree = PeriodicKDTree(
-        box=np.array(lattice.parameters, dtype=np.float32)
-    )
-    periodic_tree.set_coords(traj_cart_coords, cutoff=cutoff)
+    tree = cKDTree(traj_cart_coords)
+
+    # The trajectory positions are inside the unit cell, so to take periodicity into
+    # account it suffices to search around the images of the sites in the unit cell
+    # and its 26 neighbours. This works for any cell shape and orientation.
+    images = np.mgrid[-1:2, -1:2, -1:2].reshape(3, -1).T
 
     shape = trajectory.positions.shape[0:2]
 
@@ -535,14 +535,18 @@ def _calculate_atom_states(
             frac_coords = sites.frac_coords
             key = None
 
-        cart_coords = lattice.get_cartesian_coords(frac_coords)
-        site_index = periodic_tree.search_tree(cart_coords, radius * site_inner_fraction)
+        n_group = len(frac_coords)
+        image_coords = (np.mod(frac_coords, 1)[None, :, :] + images[:, None, :]).reshape(-1, 3)
+        cart_coords = lattice.get_cartesian_coords(image_coords)
+        neighbours = tree.query_ball_point(cart_coords, radius * site_inner_fraction)
 
-        if site_index.size == 0:
+        index = np.concatenate(neighbours).astype(int)
+
+        if index.size == 0:
             warn(f'No floating species in range of {label} ({radius=})', stacklevel=2)
             continue
 
-        siteno, index = site_index.T
+        siteno = np.repeat(np.arange(len(cart_coords)) % n_group, [len(n) for n in neighbours])
 
         if key is not None:
             # map index within the label group to index in `sites`
